@@ -329,6 +329,29 @@ impl World {
                 Ok(()) => json!(["ok"]),
                 Err(e) => rerr(&e),
             },
+            "stale" => {
+                // documented misuse: keep a handle, delete the bucket through its parent, use the handle
+                let h = match b.get_bucket(key.clone()) {
+                    Ok(h) => h,
+                    Err(e) => return rerr(&e),
+                };
+                if let Err(e) = b.delete_bucket(key.clone()) {
+                    return rerr(&e);
+                }
+                let which = o["v"].as_i64().unwrap_or(0).rem_euclid(8);
+                let k0 = self.prof.key(0);
+                // (a panic unwinds to op(), which reports ["panic"]; anything else is reported as is)
+                match which {
+                    0 => json!(["no-panic", format!("{:?}", h.put(k0, self.prof.val(0)).map(|_| ()))]),
+                    1 => json!(["no-panic", format!("{:?}", h.get(&k0).is_some())]),
+                    2 => json!(["no-panic", format!("{:?}", h.delete(&k0).map(|_| ()))]),
+                    3 => json!(["no-panic", format!("{}", h.cursor().count())]),
+                    4 => json!(["no-panic", format!("{}", h.next_int())]),
+                    5 => json!(["no-panic", format!("{:?}", h.get_bucket(k0).map(|_| ()))]),
+                    6 => json!(["no-panic", format!("{:?}", h.create_bucket(k0).map(|_| ()))]),
+                    _ => json!(["no-panic", format!("{:?}", h.delete_bucket(k0))]),
+                }
+            }
             "nextint" => json!(["int", b.next_int()]),
             "scan" => {
                 let l: Vec<Value> = b.cursor().map(|d| self.ent(&d)).collect();
